@@ -63,7 +63,12 @@ type Node struct {
 	Data    pb.DataManagerServer
 }
 
+// TagKey is the context key under which a check tags one logical request, so
+// calls made by stragglers of an earlier request are not attributed to a later one.
+type TagKey struct{}
+
 type SearchCall struct {
+	Tag        interface{}
 	From, To   uint64
 	Partitions []uuid.UUID
 	Items      []*pb.SearchResultItem // what the target's server produced
@@ -234,7 +239,7 @@ func (s *searchShim) Search(ctx context.Context, in *pb.SearchRequest, _ ...grpc
 
 func (s *searchShim) SearchPartitions(ctx context.Context, in *pb.SearchPartitionsRequest, _ ...grpc.CallOption) (pb.Search_SearchPartitionsClient, error) {
 	b := s.c.behaviour(s.to.Id)
-	call := &SearchCall{From: s.from.Id, To: s.to.Id}
+	call := &SearchCall{From: s.from.Id, To: s.to.Id, Tag: ctx.Value(TagKey{})}
 	for _, p := range in.GetPartitionIds() {
 		call.Partitions = append(call.Partitions, uuid.FromBytesOrNil(p))
 	}
